@@ -104,6 +104,8 @@ def work_core(task):
     drv = Driver()
     try:
         for i in range(start, start + count):
+            if len(ev.violations) >= 30:
+                break       # verdict settled
             rnd = random.Random((seed << 32) ^ (i * 2654435761 & 0xffffffff) ^ 0xC04)
             g = G.Gen(rnd, G.Cfg(max_depth=2, soft=0.08))
             scope = G.Scope()
